@@ -11,11 +11,12 @@ na_path = os.path.join(ROOT, "tools", "not_applicable.json")
 if os.path.exists(na_path):
     NA = json.load(open(na_path))
 
+READY = set(l.strip() for l in open(os.path.join(ROOT, "tools", "ready.txt")) if l.strip() and not l.startswith("#"))
 checks, na = [], []
 for p in props:
     pid = p["id"]
     path = os.path.join(ROOT, "checks", pid.lower() + ".py")
-    if pid in NA or not os.path.exists(path):
+    if pid in NA or pid not in READY or not os.path.exists(path):
         na.append({"property_id": pid, "reason": NA.get(pid, "check not built yet in this session (see DESIGN.md section 5 for the plan)")})
         continue
     m = importlib.import_module("checks." + pid.lower())
